@@ -114,8 +114,8 @@ type frame struct {
 	result           value
 	panicking        bool
 	panic            interface{}
-	phitemps         []value // temporaries for parallel phi assignment
-	phisDone         bool    // the phis of fr.block were already assigned by if-conversion
+	phitemps         []value         // temporaries for parallel phi assignment
+	phisDone         bool            // the phis of fr.block were already assigned by if-conversion
 	cur              ssa.Instruction // the instruction being executed (for panic locations)
 }
 
